@@ -91,7 +91,9 @@ def record_steps(lines, st, text):
         return
     log = [{'frame': f['frame'] if f['frame'] is not None else 'none', 'gmeta': _pr(f['global_meta']), 'cmeta': _pr(f['composite_meta']),
             'n': f['n_region_data']} for f in STEPLOG]
-    STEP_EVENTS.append((physical(lines, st), log, text))
+    # the hook fires at the head of every loop iteration and once after the loop: the first event is the initial state,
+    # event k the state after physical line k
+    STEP_EVENTS.append((physical(lines, st), log[1:], text, log[:1]))
 
 
 def step_validation(ctx, cap):
@@ -107,7 +109,7 @@ def step_validation(ctx, cap):
     wd = tlc.workdir('c10steps')
     path = os.path.join(wd, 'events.json')
     with open(path, 'w') as f:
-        json.dump([{'file': e[0], 'log': e[1]} for e in evs], f)
+        json.dump([{'file': e[0], 'log': e[1], 'init': e[3]} for e in evs], f)
     res = tlc.run('Trace_Ds9Steps', cfg='Trace_Ds9Steps.cfg', dump=True, env={'TRACE_FILE': path}, tag='c10steps', timeout=2400)
     ctx.tlc(res, 'Trace_Ds9Steps: per-line validation of the reader state logged by the hook')
     done, steps = set(), 0
@@ -116,7 +118,7 @@ def step_validation(ctx, cap):
         e = evs[st['t'] - 1]
         if st['verdict'] != 'ok':
             done.add(st['t'])
-            k = st['i'] - 1 if st['verdict'] != 'line_count' else 0
+            k = st['i'] - 1 if st['i'] > 1 else 0
             line = e[0][k - 1] if k else None
             sig = (line['k'] if line and line['k'] != 'region' else (line or {}).get('shape', '-'))
             ctx.violation(f"C10|steps|{st['verdict']}|{sig}",
@@ -126,6 +128,29 @@ def step_validation(ctx, cap):
             done.add(st['t'])
     if len(done) != len(evs):
         raise tlc.TlcError(f'Trace_Ds9Steps: {len(evs) - len(done)} traces did not reach a verdict')
+    # binding self-test: the same traces with one logged field corrupted (or one logged line removed) must be rejected
+    import copy
+    bad = []
+    for j, e in enumerate(evs[:40]):
+        log = copy.deepcopy(e[1])
+        k = len(log) // 2
+        if j % 4 == 0:
+            log[k]['frame'] = 'fk4' if log[k]['frame'] != 'fk4' else 'image'
+        elif j % 4 == 1:
+            log[k]['n'] += 1
+        elif j % 4 == 2:
+            log[k]['gmeta'] = dict(log[k]['gmeta'], color='corrupted')
+        else:
+            del log[k]
+        bad.append({'file': e[0], 'log': log, 'init': e[3]})
+    with open(path, 'w') as f:
+        json.dump(bad, f)
+    neg = tlc.run('Trace_Ds9Steps', cfg='Trace_Ds9Steps.cfg', dump=True, env={'TRACE_FILE': path}, tag='c10stepsneg', timeout=600)
+    rejected = {st['t'] for st in neg.states() if st['verdict'] != 'ok'}
+    if len(rejected) != len(bad):
+        raise tlc.TlcError(f'binding self-test: {len(bad) - len(rejected)} corrupted traces were accepted by Trace_Ds9Steps')
+    ctx.note('step_selftest_corrupted_traces_rejected', len(rejected))
+    tlc.cleanup(neg.workdir)
     ctx.traces += len(evs)
     ctx.note('step_traces_validated', len(evs))
     ctx.note('step_states', steps)
